@@ -68,9 +68,12 @@ const (
 )
 
 type Tab struct {
-	Name   string
-	File   bool
-	Stdin  bool // the session's STDIN table: in memory, neither a file nor a DECLAREd temporary table
+	Name  string
+	File  bool
+	Stdin bool // the session's STDIN table: in memory, neither a file nor a DECLAREd temporary table
+	// Opaque: a file that a plain `SELECT * FROM name` does not parse the way this transaction loaded it (first access through
+	// a table function with non-default options): after a COMMIT only its bytes are compared with the control run
+	Opaque bool
 	Cols   []string
 	Kind   map[string]int
 	NextID int
@@ -1467,6 +1470,35 @@ func (r *Runner) genRename(t *Tab, f *Fault) *Stmt {
 	return s
 }
 
+// BadAttrs: ALTER TABLE … SET statements that must fail: an invalid value for every attribute, values of the wrong
+// type, an unknown attribute; `combo`: values that are valid by themselves but not for the table's format.
+var BadAttrs = []string{
+	"FORMAT TO 'XML'", "FORMAT TO NULL", "DELIMITER TO 'ab'", "DELIMITER TO ''", "DELIMITER_POSITIONS TO 'abc'", "DELIMITER_POSITIONS TO '[3, 1'",
+	"JSON_ESCAPE TO 'NOPE'", "ENCODING TO 'LATIN9'", "ENCODING TO NULL", "LINE_BREAK TO 'XX'", "HEADER TO 'maybe'", "HEADER TO NULL",
+	"ENCLOSE_ALL TO 'maybe'", "PRETTY_PRINT TO 'maybe'", "PRETTY_PRINT TO NULL",
+}
+var ComboAttrs = []string{"ENCODING TO 'SJIS'", "ENCODING TO 'UTF16'", "ENCODING TO 'UTF8M'"} // refused for JSON / JSONL tables
+
+// genSetAttr: ALTER TABLE t SET attribute TO value on a file-backed table.  Successful ones only change what a plain
+// re-read of the CSV file tolerates (line break, quoting); header and records are untouched, the table gets marked.
+func (r *Runner) genSetAttr(t *Tab, f *Fault) *Stmt {
+	g := r.G
+	if !t.File || t.Opaque {
+		return nil
+	}
+	s := &Stmt{Kind: "setattr", Targets: []string{t.Name}, Fault: f, Wrap: "plain"}
+	switch fk(f) {
+	case "":
+		s.SQL = "ALTER TABLE " + t.Name + " SET " + g.Pick("LINE_BREAK TO 'CRLF'", "LINE_BREAK TO 'LF'", "ENCLOSE_ALL TO TRUE", "ENCLOSE_ALL TO FALSE", "PRETTY_PRINT TO TRUE", "JSON_ESCAPE TO 'HEX'")
+		s.Op = "setattr " + t.Name
+	case "name":
+		s.SQL = "ALTER TABLE " + t.Name + " SET NOPE TO 1"
+	default:
+		s.SQL = "ALTER TABLE " + t.Name + " SET " + BadAttrs[g.Intn(len(BadAttrs))]
+	}
+	return s
+}
+
 func (r *Runner) genCreate(t *Tab, f *Fault) *Stmt {
 	g := r.G
 	s := &Stmt{Kind: "create", Fault: f, Targets: []string{}}
@@ -1532,7 +1564,7 @@ func (r *Runner) genCreate(t *Tab, f *Fault) *Stmt {
 func (r *Runner) Gen(fault bool) *Stmt {
 	g := r.G
 	kinds := []string{"insert", "insert", "insert", "insertsel", "insertsel", "replacesel", "replace", "replace", "replace", "update", "update", "update",
-		"delete", "delete", "updatem", "updatem", "deletem", "addcol", "addcol", "dropcol", "rename", "create"}
+		"delete", "delete", "updatem", "updatem", "deletem", "addcol", "addcol", "dropcol", "rename", "create", "setattr"}
 	for tries := 0; tries < 80; tries++ {
 		t := r.Tabs[g.Intn(len(r.Tabs))]
 		var o *Tab
@@ -1606,6 +1638,8 @@ func (r *Runner) Gen(fault bool) *Stmt {
 			s = r.genDropCol(t, f)
 		case "rename":
 			s = r.genRename(t, f)
+		case "setattr":
+			s = r.genSetAttr(t, f)
 		case "create":
 			if f == nil && g.Intn(3) > 0 {
 				continue
@@ -1632,7 +1666,8 @@ var FaultsOf = map[string][]string{
 	"addcol":     {"div", "dup", "pos"},
 	"dropcol":    {"field"},
 	"rename":     {"dup", "field"},
-	"create":     {"dup", "exists", "subq", "where", "len", "dupas"},
+	"create":     {"dup", "exists", "casecoll", "casecoll", "subq", "where", "len", "dupas"},
+	"setattr":    {"value", "value", "combo", "name"},
 }
 
 // ---------- running ----------
@@ -1701,6 +1736,10 @@ func (r *Runner) Exec(st *Stmt, cancelAt int64) *Outcome {
 	before := r.snapAll()
 	marksBefore := Marks(r.Pr)
 	filesBefore := r.listing()
+	attrsBefore := ""
+	if st.Kind == "setattr" {
+		attrsBefore = r.Attrs(r.Pr, st.Targets[0])
+	}
 	matched := map[string][]string{}
 	matchOK := true
 	for k, q := range st.MatchSQL {
@@ -1809,6 +1848,14 @@ func (r *Runner) Exec(st *Stmt, cancelAt int64) *Outcome {
 			o.Law("failed_statement_changed_marks", rp)
 			out.Failed = append(out.Failed, "failed_statement_changed_marks")
 		}
+		if st.Kind == "setattr" {
+			if a := r.Attrs(r.Pr, st.Targets[0]); a != attrsBefore {
+				rp := replay()
+				rp["attributes_before"], rp["attributes_after"] = attrsBefore, a
+				o.Law("failed_statement_changed_attributes", rp)
+				out.Failed = append(out.Failed, "failed_statement_changed_attributes")
+			}
+		}
 		// files: a failed statement removes nothing (not even the lock / temporary files of tables that are open in
 		// the transaction) and leaves no new visible file; it may have opened a table (new hidden lock / temp files)
 		filesAfter := r.listing()
@@ -1886,6 +1933,9 @@ func (r *Runner) Exec(st *Stmt, cancelAt int64) *Outcome {
 			t.Cols = s.Header
 		}
 	}
+	if st.Kind == "setattr" && err == nil && strings.Contains(stdout, "remain unchanged") {
+		st.Op = "" // the attribute already had that value: nothing happened, not even the mark
+	}
 	if st.Op != "" && (cancelAt == 0 || err == nil) {
 		o.Case("c05."+st.Op, strings.TrimRight(out.Line, " "))
 	}
@@ -1952,6 +2002,24 @@ func FileText(dir, name string) (string, error) {
 // Commit commits on the main (and twin) processor, compares the committed state with the model, and re-sends
 // the file-backed tables (they are re-read from the files, as text, by the following statements).
 func (r *Runner) Commit() { r.CommitAt(0) }
+
+// Attrs: the attribute listing of a table (SHOW FIELDS: format, delimiter, encoding, line break, header, … and the
+// field names), without the Path and Status lines.
+func (r *Runner) Attrs(pr *hc.Proc, name string) string {
+	out, err := pr.Exec("SHOW FIELDS FROM " + name + ";")
+	if err != nil {
+		return "error: " + err.Error()
+	}
+	var keep []string
+	for _, l := range strings.Split(out, "\n") {
+		t := strings.TrimSpace(l)
+		if t == "" || strings.HasPrefix(t, "Path:") || strings.HasPrefix(t, "Status:") || strings.HasPrefix(t, "---") {
+			continue
+		}
+		keep = append(keep, strings.Join(strings.Fields(t), " "))
+	}
+	return strings.Join(keep, " | ")
+}
 
 // listing: the names of all directory entries of the repository, hidden lock / temporary files included
 func (r *Runner) listing() map[string]bool {
@@ -2113,12 +2181,14 @@ func (r *Runner) CommitAt(cancelAt int64) bool {
 		if !t.File {
 			continue
 		}
-		txt, err := FileText(r.Dir, t.Name)
-		if err != nil {
-			o.Law("committed_file_unreadable", map[string]string{"table": t.Name, "error": err.Error()})
-			continue
+		if !t.Opaque {
+			txt, err := FileText(r.Dir, t.Name)
+			if err != nil {
+				o.Law("committed_file_unreadable", map[string]string{"table": t.Name, "error": err.Error()})
+				continue
+			}
+			o.Case("c05.committed "+t.Name, txt)
 		}
-		o.Case("c05.committed "+t.Name, txt)
 		if r.Twin != nil {
 			a, _ := os.ReadFile(filepath.Join(r.Dir, t.Name+".csv"))
 			b, _ := os.ReadFile(filepath.Join(r.TwinDir, t.Name+".csv"))
@@ -2131,6 +2201,9 @@ func (r *Runner) CommitAt(cancelAt int64) bool {
 				r.commitLaw = true
 				o.Law(law, map[string]interface{}{"table": t.Name, "bytes": len(a), "bytes_control": len(b), "file": clip(string(a)), "file_of_control_run": clip(string(b)), "file_tail": tail(string(a))})
 			}
+		}
+		if t.Opaque {
+			continue
 		}
 		r.SendTable(t)
 	}
@@ -2798,4 +2871,192 @@ func CreateCorpus(g *hc.Gen, o *hc.Out, root string) {
 	}
 	r.Commit()
 	r.CompareTwin("create corpus: after COMMIT")
+}
+
+// AttrCorpus (c08, first on every run): failing `ALTER TABLE … SET <attribute>` — every attribute with invalid values,
+// the wrong type, an unknown name, and combinations that are invalid for the table's format — on tables of every
+// file format holding non-ASCII data.  Around every failing statement the full attribute listing (SHOW FIELDS),
+// `SELECT *` and the uncommitted marks are compared; then a successful attribute change, a data change and COMMIT
+// run on the main and the control processor and the files are compared byte for byte.
+func AttrCorpus(g *hc.Gen, o *hc.Out, root string) {
+	files := map[string]string{
+		"c.csv":   "id,v\n1,é\n2,日本\n",
+		"t.tsv":   "id\tv\n1\té\n2\tb\n",
+		"j.json":  `[{"id":1,"v":"é"},{"id":2,"v":"日本"}]`,
+		"x.jsonl": "{\"id\":1,\"v\":\"é\"}\n{\"id\":2,\"v\":\"b\"}\n",
+		"l.ltsv":  "id:1\tv:é\nid:2\tv:b\n",
+	}
+	dirA, dirB := filepath.Join(root, "corpus-attr"), filepath.Join(root, "corpus-attr-twin")
+	for _, d := range []string{dirA, dirB} {
+		_ = os.MkdirAll(d, 0o755)
+		for f, c := range files {
+			_ = os.WriteFile(filepath.Join(d, f), []byte(c), 0o644)
+		}
+	}
+	defer os.RemoveAll(dirA)
+	defer os.RemoveAll(dirB)
+	r := &Runner{G: g, O: o, CPU: 1, Dir: dirA, TwinDir: dirB}
+	r.Pr, r.Twin = hc.NewProc(dirA), hc.NewProc(dirB)
+	defer r.Pr.Close()
+	defer r.Twin.Close()
+	tables := []string{"c", "t", "j", "x", "l"}
+	state := func(pr *hc.Proc) map[string]string {
+		m := map[string]string{"(marks)": Marks(pr)}
+		for _, t := range tables {
+			m[t+" attributes"] = r.Attrs(pr, t)
+			if sn, _, err := SnapOf(pr, t); err == nil {
+				m[t+" records"] = sn.Dump(t)
+			} else {
+				m[t+" records"] = "error: " + err.Error()
+			}
+		}
+		return m
+	}
+	both := func(sql string) bool {
+		_, e1 := r.Pr.Exec(sql)
+		_, e2 := r.Twin.Exec(sql)
+		if (e1 == nil) != (e2 == nil) {
+			o.Law("control_run_diverged", map[string]string{"sql": sql, "main": fmt.Sprint(e1), "control": fmt.Sprint(e2)})
+			return false
+		}
+		return e1 == nil
+	}
+	for _, t := range tables {
+		stmts := append(append([]string{}, BadAttrs...), "NOPE TO 1")
+		stmts = append(stmts, ComboAttrs...)
+		for _, a := range stmts {
+			sql := "ALTER TABLE " + t + " SET " + a + ";"
+			before := state(r.Pr)
+			_, err := r.Pr.Exec(sql)
+			o.Count("corpus:attr")
+			if err == nil {
+				// valid for this format (e.g. SJIS for a CSV table): the control run does the same
+				if _, e2 := r.Twin.Exec(sql); e2 != nil {
+					o.Law("control_run_diverged", map[string]string{"sql": sql, "control": e2.Error()})
+					return
+				}
+				o.Count("corpus:attr_valid_here")
+				continue
+			}
+			o.NonTrivial("attr:" + t + ":" + a)
+			after := state(r.Pr)
+			for k, b := range before {
+				if after[k] != b {
+					law := "failed_statement_changed_table"
+					switch {
+					case strings.HasSuffix(k, "attributes"):
+						law = "failed_statement_changed_attributes"
+					case k == "(marks)":
+						law = "failed_statement_changed_marks"
+					}
+					o.Law(law, map[string]string{"sql": sql, "error": err.Error(), "what": k, "before": clip(b), "after": clip(after[k])})
+					return // one defect, one report
+				}
+			}
+		}
+	}
+	// successful attribute changes + data changes, then COMMIT, on both processors
+	for _, sql := range []string{
+		"ALTER TABLE c SET LINE_BREAK TO 'CRLF';", "UPDATE c SET v = 'ü' WHERE id = 1;",
+		"ALTER TABLE t SET FORMAT TO 'CSV';", "INSERT INTO t VALUES (3, 'ö');",
+		"ALTER TABLE j SET FORMAT TO 'CSV';", "UPDATE j SET v = 'ß' WHERE id = 2;",
+		"ALTER TABLE x SET FORMAT TO 'JSON';", "ALTER TABLE x SET PRETTY_PRINT TO TRUE;",
+		"ALTER TABLE l SET FORMAT TO 'TSV';", "DELETE FROM l WHERE id = 1;",
+	} {
+		if !both(sql) {
+			o.Law("corpus_statement_failed", map[string]string{"sql": sql})
+			return
+		}
+	}
+	sa, sb := state(r.Pr), state(r.Twin)
+	for k, a := range sa {
+		if sb[k] != a {
+			o.Law("failed_statement_changed_attributes", map[string]string{"where": "main against control run before COMMIT", "what": k, "main": clip(a), "control": clip(sb[k])})
+			return
+		}
+	}
+	_, e1 := r.Pr.Exec("COMMIT;")
+	_, e2 := r.Twin.Exec("COMMIT;")
+	if e1 != nil || e2 != nil {
+		o.Law("commit_failed", map[string]string{"main": fmt.Sprint(e1), "control": fmt.Sprint(e2)})
+		return
+	}
+	for f := range files {
+		a, _ := os.ReadFile(filepath.Join(dirA, f))
+		b, _ := os.ReadFile(filepath.Join(dirB, f))
+		if string(a) != string(b) {
+			o.Law("partial_effects_committed", map[string]interface{}{"table": f, "after": "failed ALTER TABLE SET statements", "file": clip(string(a)), "file_of_control_run": clip(string(b))})
+		}
+	}
+}
+
+// LoadFuncCorpus (c08, first on every run): tables whose FIRST access in the transaction goes through a table function
+// with non-default options (no header line, another delimiter, another encoding); then a FAILING and a succeeding
+// data-changing statement name them plainly (the for-update reload must keep the attributes of the first load).
+// Header and records after every statement against the model and the control run, then COMMIT and the bytes.
+func LoadFuncCorpus(g *hc.Gen, o *hc.Out, root string) {
+	r := newFixedRunner(g, o, root, "corpus-loadfunc", []fixedTab{{"f1", true, []string{"id", "a"}, [][]int{{0, 5}, {1, 6}}}})
+	defer r.Close()
+	type ft struct {
+		name, file, content, load string
+		cols                      []string
+	}
+	tabs := []ft{
+		{"nh", "nh.csv", "1,a\n2,b\n3,c\n", "SELECT * FROM CSV(',', `nh.csv`, 'UTF8', TRUE);", []string{"c1", "c2"}},
+		{"sc", "sc.csv", "id;v\n1;a\n2;b\n3;c\n", "SELECT * FROM CSV(';', `sc.csv`);", []string{"id", "v"}},
+		{"sj", "sj.csv", "id,v\n1,\x83A\n2,\x83C\n", "SELECT * FROM CSV(',', `sj.csv`, 'SJIS');", []string{"id", "v"}},
+		{"nh2", "nh2.csv", "1,a\n2,b\n", "SELECT * FROM CSV(',', `nh2.csv`, 'UTF8', TRUE);", []string{"c1", "c2"}},
+	}
+	for _, t := range tabs {
+		for _, d := range []string{r.Dir, r.TwinDir} {
+			_ = os.WriteFile(filepath.Join(d, t.file), []byte(t.content), 0o644)
+		}
+		for _, pr := range []*hc.Proc{r.Pr, r.Twin} {
+			if _, err := pr.Exec(t.load); err != nil {
+				o.Law("setup_failed", map[string]string{"sql": t.load, "error": err.Error()})
+				return
+			}
+		}
+		tab := &Tab{Name: t.name, File: true, Opaque: true, Cols: t.cols, Kind: map[string]int{}, NextID: 10}
+		r.Tabs = append(r.Tabs, tab)
+		r.SendTable(tab)
+	}
+	lit := func(s string) Ex { return Lit(value.NewString(s)) }
+	hs := func(kind, sql, op, target string, fail bool) *Stmt {
+		st := &Stmt{Kind: kind, SQL: sql, Op: op, Targets: []string{target}, Wrap: "plain"}
+		if fail {
+			st.Fault = &Fault{Kind: "after_function_load"}
+		}
+		return st
+	}
+	tt := True().Tok
+	stmts := []*Stmt{
+		// nh: failing first, then succeeding
+		hs("update", "UPDATE nh SET c2 = 1 / (c1 - 2) WHERE TRUE", "update nh 1 c2 / "+Int(1).Tok+" - $c1 "+Int(2).Tok+" "+tt, "nh", true),
+		hs("update", "UPDATE nh SET c2 = 'z' WHERE c1 = 1", "update nh 1 c2 "+lit("z").Tok+" eq $c1 "+Int(1).Tok, "nh", false),
+		// sc: failing INSERT (unknown column: after the load), then DELETE
+		hs("insert", "INSERT INTO sc (id, zz) VALUES (4, 1)", "insert sc 2 id zz 1 2 "+Int(4).Tok+" "+Int(1).Tok, "sc", true),
+		hs("delete", "DELETE FROM sc WHERE id = 1", "delete sc eq $id "+Int(1).Tok, "sc", false),
+		// sj: failing ALTER, then UPDATE
+		hs("addcol", "ALTER TABLE sj ADD (x DEFAULT 1 / (id - 1))", "addcol sj last 1 x 1 / "+Int(1).Tok+" - $id "+Int(1).Tok, "sj", true),
+		hs("update", "UPDATE sj SET v = 'q' WHERE id = 2", "update sj 1 v "+lit("q").Tok+" eq $id "+Int(2).Tok, "sj", false),
+		// nh2: a succeeding statement is the first plain access
+		hs("insert", "INSERT INTO nh2 VALUES (3, 'c')", "insert nh2 - 1 2 "+Int(3).Tok+" "+lit("c").Tok, "nh2", false),
+	}
+	for _, st := range stmts {
+		out := r.Exec(st, 0)
+		o.Count("corpus:loadfunc")
+		if (out.Err != nil) != (st.Fault != nil) {
+			o.Law("corpus_statement_unexpected_result", map[string]string{"sql": st.SQL, "error": fmt.Sprint(out.Err)})
+			return
+		}
+		if out.Err == nil {
+			r.TwinExec(st)
+		}
+		if len(out.Failed) > 0 {
+			return
+		}
+		r.CompareTwin("load-function corpus: after " + st.SQL)
+	}
+	r.Commit()
 }
